@@ -4,6 +4,7 @@ import re
 from lib import machine as mc
 from lib.mir import AnchorMissing
 from . import nf_common, nfq
+from .guardlib import gval, comparisons, lt_true, ge_true
 
 MANIFEST = {
     "text": "Who-may-append and dispatch rules: only comments, the doctype and the root element created by create_root are ever appended to the document node, and no text; create_root is called only where the BeforeHtml mode is left (and for fragments); in the modes whose current node can be html (or nothing) text is inserted only for whitespace tokens; BeforeHead / AfterHead 'anything else' insert head / body; the frameset replacement detaches body first under frameset_ok; empty character tokens never reach the rules (the LF strip precedes the emptiness test, SplitWhitespace never enqueues an empty remainder) and the whitespace classification is ASCII everywhere; RcDom merges adjacent text. Plus the reviewed normal forms of the tree builder. In a frameset document no formatting element may be reconstructed under html (R06.7: violated as the standard prescribes, recorded as known finding K1); the sets bounding 'clear the stack back to a ... context' contain html and template (R06.8).",
@@ -140,7 +141,7 @@ def r06_4(ctx):
         for a, args in pc["actions"]:
             if a.endswith(".push_back") and "Characters(NotSplit" in str(args):
                 pushes += 1
-                if not any(v and "len32() > 0" in g for g, v in pc["guards"].items()):
+                if not lt_true(pc["guards"], "0", "len32()"):
                     bad = "the remainder of a split text token is enqueued without the non-empty test"
     ctx.floor("R06.4", "remainder-enqueue-paths", pushes, 1)
     ctx.ob("R06.4", "split-remainder-non-empty", bad is None, bad or "SplitWhitespace enqueues the remainder only when len32() > 0")
